@@ -15,7 +15,7 @@ RULE = ('Cases: an ancestor with substitution sites >= 2k apart and >= 2k from t
         'samples written in random orientation; the generator checks that every (k-1)-mer over the union of the sample sequences '
         'occurs at one locus on both strands and none is self-complementary.  Reference-free (k in {7,9,11,15,17,21,31,33}): the '
         'column multiset of <out>_snps.fas must equal the planted truth up to order and whole-column complement, names in input '
-        'order.  With -r (k>=15; reference = ancestor, its reverse complement, or one of the samples; a share with an N run away from the sites): every VCF record at a '
+        'order.  With -r (k>=15; reference = ancestor, its reverse complement, or one of the samples; a share with an N run away from the sites; the reference given as plain or wrapped FASTA, gzipped, or gzipped in several members): every VCF record at a '
         'planted coordinate with the true alleles on the reference strand, REF = reference base, pseudo-genomes of reference '
         'length agreeing with every sample at every called position (how many planted sites are reported is recorded, not judged: the statement is about reported SNPs there).  A fifth of the runs write to a prefix that already holds the output of an earlier, larger run.  Threads 1..8, with and without '
         'seeded jitter at the hook points, -m in {0.1,0.2,0.4}.  Well-formedness (equal lengths, >= 2 distinct A/C/G/T per column, '
@@ -24,7 +24,7 @@ RULE = ('Cases: an ancestor with substitution sites >= 2k apart and >= 2k from t
 ASSUMPTIONS = ['the planted truth is the oracle; well-formedness is a direct predicate on the output',
                'union-of-samples uniqueness (DESIGN.md section 8); sites at least 2k from the sequence ends']
 REQUIRED = {t: ['mode:free', 'mode:ref', 'mode:wf', 'ref:ancestor', 'ref:revcomp', 'ref:sample', 'threads>1', 'jitter_runs',
-                'sites_called', 'multiallelic_sites', 'wf_columns_checked', 'vcf_records_checked', 'reference_with_N', 'runs_over_existing_output'] for t in ('quick', 'thorough')}
+                'sites_called', 'multiallelic_sites', 'wf_columns_checked', 'vcf_records_checked', 'reference_with_N', 'runs_over_existing_output', 'reference_route:plain', 'reference_route:gz', 'reference_route:gz-multi'] for t in ('quick', 'thorough')}
 FREE_K = [7, 9, 11, 15, 17, 21, 31, 33]
 REF_K = [15, 17, 21, 31, 33]
 
@@ -234,8 +234,18 @@ def run_case(desc, ctx):
                     res.count('reference_with_N')
                     break
         if mode == 'ref' or rng.random() < 0.5:
-            ctx.write('ref.fa', '>R\n%s\n' % refseq)
-            args += ['-r', ctx.path('ref.fa')]
+            # the reference as plain text (wrapped or not), gzipped, or gzipped in several members (bgzip style, cat a.gz b.gz)
+            import gzip
+            w_ = rng.choice([0, 0, 60])
+            txt = '>R\n%s\n' % ('\n'.join(refseq[i:i + w_] for i in range(0, len(refseq), w_)) if w_ else refseq)
+            route = rng.choice(['plain', 'plain', 'gz', 'gz-multi'])
+            if route == 'plain':
+                refpath = ctx.write('ref.fa', txt)
+            else:
+                cuts = [0, len(txt)] if route == 'gz' else sorted({0, len(txt), rng.randrange(len(txt)), rng.randrange(len(txt))})
+                refpath = ctx.write('ref.fa.gz', b''.join(gzip.compress(txt[a_:b_].encode()) for a_, b_ in zip(cuts, cuts[1:])))
+            res.count('reference_route:' + route)
+            args += ['-r', refpath]
         else:
             refseq = None
     if desc['seed'] % 5 == 0:
